@@ -567,3 +567,32 @@ silent("C14", "mask-comparison-mirrored", E(WK, "geometric_kernel", "        res
 # --- C03: window total only under the normalisation flag (from the mutation smoke test)
 fire("C03", "normalisation-always-on", "R3.6", E(TOK, "numba_build_skip_grams", "            if normalize_windows:\n", "            if True:\n"),
      "weights divided by the window total although normalize_windows is off")
+
+# --- C03: from the third mutant batch
+fire("C03", "mix-weight-not-expanded", "R3.8", E(BASE, "BaseCooccurrenceVectorizer.__init__", '                self._window_orientations.append("before")\n                self._mix_weights.append(self.mix_weights[i])\n', '                self._window_orientations.append("before")\n'),
+     "a 'before' window gets no mix weight: later windows take their neighbour's")
+fire("C03", "multiset-windows-exchanged", "R3.9", E(MULTI, "numba_build_multi_skip_grams", "                if not window_reversals[i]:", "                if window_reversals[i]:"),
+     "multiset build kernel: before / after windows exchanged relative to the flags")
+silent("C03", "multiset-window-test-positive", [E(MULTI, "numba_build_multi_skip_grams", """                if not window_reversals[i]:
+                    multi_window = token_sequences[
+                        d_i : min(
+                            [len(token_sequences), d_i + window_size_array[i, 0] + 1]
+                        )
+                    ]
+                else:
+                    multi_window = token_sequences[
+                        max([0, d_i - window_size_array[i, 0]]) : d_i + 1
+                    ]
+                    multi_window.reverse()
+""", """                if window_reversals[i]:
+                    multi_window = token_sequences[
+                        max([0, d_i - window_size_array[i, 0]]) : d_i + 1
+                    ]
+                    multi_window.reverse()
+                else:
+                    multi_window = token_sequences[
+                        d_i : min(
+                            [len(token_sequences), d_i + window_size_array[i, 0] + 1]
+                        )
+                    ]
+""")], "the same selection with the arms exchanged and the test positive")
